@@ -321,6 +321,16 @@ unsafe fn apply_c(d: &CDoc, txn: *mut c::Transaction, kind: OffsetKind, model: &
                 c::ytext_insert_embed(b, txn, off, &content, ap);
             }
         }
+        Op::TEmbedT { i, v, .. } => {
+            // a shared type (yarray / ymap / ytext input cell) embedded as one unit of the text
+            let off = unit_offset(&units, *i, kind);
+            let content = mk_val(v, &mut k);
+            if xt {
+                c::yxmltext_insert_embed(b, txn, off, &content, null());
+            } else {
+                c::ytext_insert_embed(b, txn, off, &content, null());
+            }
+        }
         Op::TFmt { i, n, attrs, .. } => {
             let off = unit_offset(&units, *i, kind);
             let len = unit_offset(&units, *i + *n, kind) - off;
@@ -451,13 +461,13 @@ unsafe fn apply_c(d: &CDoc, txn: *mut c::Transaction, kind: OffsetKind, model: &
                 c::yxmlelem_remove_attr(b, txn, k.s(key));
             }
         }
-        Op::MTryUpdate { .. } | Op::MGetOrInit { .. } | Op::Quote { .. } | Op::Link { .. } | Op::TEmbedT { .. } => return Err("no C counterpart".into()),
+        Op::MTryUpdate { .. } | Op::MGetOrInit { .. } | Op::Quote { .. } | Op::Link { .. } => return Err("no C counterpart".into()),
     }
     Ok(())
 }
 
 pub fn has_c_counterpart(op: &Op) -> bool {
-    !matches!(op, Op::MTryUpdate { .. } | Op::MGetOrInit { .. } | Op::Quote { .. } | Op::Link { .. } | Op::TEmbedT { .. })
+    !matches!(op, Op::MTryUpdate { .. } | Op::MGetOrInit { .. } | Op::Quote { .. } | Op::Link { .. })
 }
 
 // ---------------------------------------------------------------------------------------------
@@ -1738,6 +1748,8 @@ fn bounds(tier: Tier) -> Vec<(Fam, usize, u8, bool)> {
             (Fam::Txt, 3, 1, false),
             (Fam::Rtx, 3, 1, false),
             (Fam::Rtx, 2, 2, true),
+            // shared types embedded in a text through ytext_insert_embed, deletion ranges over them
+            (Fam::Rtx, 3, 4, false),
             (Fam::Uni, 3, 0, false),
             (Fam::Arr, 3, 1, false),
             (Fam::Arr, 2, 0, true),
@@ -1750,6 +1762,7 @@ fn bounds(tier: Tier) -> Vec<(Fam, usize, u8, bool)> {
             (Fam::Txt, 5, 1, false),
             (Fam::Rtx, 4, 2, false),
             (Fam::Rtx, 3, 1, true),
+            (Fam::Rtx, 4, 4, false),
             (Fam::Uni, 4, 1, false),
             (Fam::Arr, 4, 2, false),
             (Fam::Arr, 3, 0, true),
